@@ -331,8 +331,11 @@ def do_check(work, prop, spec, tier, seed, only):
         if v["key"] in reported:
             continue
         reported.add(v["key"])
-        os.makedirs(os.path.join(VERIF, "replays"), exist_ok=True)
-        rpath = os.path.join(VERIF, "replays", "%s-%s.json" % (prop, slug(v["key"])))
+        # replays of the repository itself live in replays/; runs against another copy of the tree
+        # (mutants, seeded changes, candidate fixes) keep theirs apart
+        rdir = os.path.join(VERIF, "replays") if os.path.realpath(REPO) == "/repo" else os.path.join(VERIF, ".work", "replays-other", os.path.basename(os.path.realpath(REPO)))
+        os.makedirs(rdir, exist_ok=True)
+        rpath = os.path.join(rdir, "%s-%s.json" % (prop, slug(v["key"])))
         with open(rpath, "w") as f:
             json.dump({"property": prop, "unit": unit["name"], "part": part["part"], "key": v["key"], "tier": tier,
                        "detail": v["detail"], "case": v["case"]}, f, indent=1)
